@@ -28,7 +28,7 @@ def trace_if_returns(return_value: ReturnType) -> F:
             result = func(*args, **kwargs)
 
             if result == return_value:
-                print(f'Function {getattr(func, "__name__", repr(func))} returned value {result} for args: {args} and kwargs: {kwargs}')
+                print(f'Function {func.__name__ if hasattr(func, "__name__") else repr(func)} returned value {result} for args: {args} and kwargs: {kwargs}')
 
             return result
 
@@ -37,7 +37,7 @@ def trace_if_returns(return_value: ReturnType) -> F:
             result = await func(*args, **kwargs)
 
             if result == return_value:
-                print(f'Function {getattr(func, "__name__", repr(func))} returned value {result} for args: {args} and kwargs: {kwargs}')
+                print(f'Function {func.__name__ if hasattr(func, "__name__") else repr(func)} returned value {result} for args: {args} and kwargs: {kwargs}')
 
             return result
 
